@@ -8,6 +8,7 @@
 
 #include "CppUTest/TestHarness.h"
 #include "CppUTest/TestRegistry.h"
+#include "CppUTest/TestFilter.h"
 #include "CppUTest/TestOutput.h"
 #include "CppUTest/JUnitTestOutput.h"
 #include "CppUTest/TeamCityTestOutput.h"
@@ -26,6 +27,7 @@ struct TestSpec {
     int passing_checks = 0;
     std::vector<const char*> prints;         // printed in the body, before any failure
     std::vector<FailSpec> failures;          // [0] raised in the body, [1] (if any) raised in teardown
+    bool selected = true;                    // false: excluded by the run's name filter (TeamCity runs only)
     // observed
     int executed = 0;
 };
@@ -38,6 +40,7 @@ struct RunSpec {
     int mode = 0;           // 0 = output object driven directly by TestRegistry::runAllTests, 1 = through CommandLineTestRunner (-ojunit/-oteamcity)
     int repeat = 1;
     bool verbose = false;
+    const char* strict_name_filter = nullptr;   // optional: only tests with exactly this name are selected
     const char* keep(const std::string& s) { strings.push_back(s); return strings.back().c_str(); }
 };
 
@@ -122,6 +125,14 @@ static void generate(vf::Rng& r, RunSpec& run, bool thorough) {
         }
         run.groups.push_back(gs);
     }
+#ifdef VF_TEAMCITY
+    // "for every run": 25 % of the runs are filtered (strict name filter), so that groups whose first/last/all
+    // tests are filtered out occur; judged for balance and for the selected tests only
+    if (r.chance(25)) {
+        run.strict_name_filter = r.chance(90) ? run.tests[r.below(run.tests.size())].name : run.keep("no such test");
+        for (auto& t : run.tests) t.selected = strcmp(t.name, run.strict_name_filter) == 0;
+    }
+#endif
 }
 
 // ------------------------------------------------------------------ scripted shells
@@ -197,13 +208,13 @@ static std::string truth_json(const RunSpec& run, const std::vector<TestSpec*>& 
             std::vector<std::string> fails, prints;
             for (const FailSpec& f : t->failures) fails.push_back(vf::J().k("file", f.file).k("line", (unsigned long) f.line).k("text", f.text).str());
             for (const char* p : t->prints) prints.push_back(vf::jstr(p));
-            tests.push_back(vf::J().k("name", t->name).k("file", t->file).k("line", (unsigned long) t->line).k("ignored", t->ignored)
+            tests.push_back(vf::J().k("name", t->name).k("file", t->file).k("line", (unsigned long) t->line).k("ignored", t->ignored).k("selected", t->selected)
                             .raw("failures", vf::jarr(fails)).raw("prints", vf::jarr(prints)).k("executed", t->executed).str());
             k++;
         }
         groups.push_back(vf::J().k("name", g).raw("tests", vf::jarr(tests)).str());
     }
-    return vf::J().k("package", run.package).k("mode", run.mode).k("repeat", run.repeat).k("verbose", run.verbose).raw("groups", vf::jarr(groups)).str();
+    return vf::J().k("package", run.package).k("filter", run.strict_name_filter ? run.strict_name_filter : "").k("filtered", run.strict_name_filter != nullptr).k("mode", run.mode).k("repeat", run.repeat).k("verbose", run.verbose).raw("groups", vf::jarr(groups)).str();
 }
 
 static bool has_any(const char* s, const char* set) { return strpbrk(s, set) != nullptr; }
@@ -245,7 +256,12 @@ static void sec_runs(vf::Ctx& c) {
         RecTeamCity out;
 #endif
         TestResult res(out);
-        reg.runAllTests(res);
+        if (run.strict_name_filter) {
+            TestFilter flt(run.strict_name_filter); flt.strictMatching();
+            reg.setNameFilters(&flt);
+            reg.runAllTests(res);
+            reg.setNameFilters(NULLPTR);
+        } else reg.runAllTests(res);
     } else {
         std::vector<const char*> av; av.push_back("harness");
 #ifdef VF_JUNIT
@@ -254,6 +270,7 @@ static void sec_runs(vf::Ctx& c) {
 #else
         av.push_back("-oteamcity");
 #endif
+        if (run.strict_name_filter) { av.push_back("-sn"); av.push_back(run.strict_name_filter); }
         if (run.verbose) av.push_back("-v");
         if (run.repeat == 2) av.push_back("-r2");
         CommandLineTestRunner runner((int) av.size(), av.data(), &reg);
@@ -264,7 +281,7 @@ static void sec_runs(vf::Ctx& c) {
 
     // execution sanity (not the property itself, but the ground truth relies on it)
     for (TestSpec* t : order) {
-        int want = t->ignored ? 0 : run.repeat;
+        int want = (t->ignored || !t->selected) ? 0 : run.repeat;
         if (t->executed != want) c.violation("harness:execution-count", std::string("test ran ") + std::to_string(t->executed) + " times, expected " + std::to_string(want));
     }
 
@@ -292,6 +309,7 @@ static void sec_runs(vf::Ctx& c) {
     }
     c.count("groups", run.groups.size());
     c.count(run.mode ? "runs_through_CommandLineTestRunner" : "runs_direct_registry");
+    if (run.strict_name_filter) c.count("runs_with_name_filter");
 #ifdef VF_JUNIT
     c.count("xml_files_captured", g_files.size());
     if (markup && failing && ignored) c.nontrivial(sig);
